@@ -944,9 +944,143 @@ func vxRunExtension(x *vxState) string {
 	lap("self-containing values")
 	names := vxNamesClass(x)
 	lap("names")
+	shapes := vxPatternShapeClass(x)
+	lap("pattern shapes")
+	shapes += " + " + vxResultAliasingClass(x)
+	lap("result aliasing")
 	hist := vxHistoryClass(x) // last: everything above is history for it
 	lap("history")
-	return fmt.Sprintf("%d parameter positions x (%d parameter values x {parameter map, Parameter.Value} x {no panic/hang, nothing nested changed, repeat} + %d self-containing values in child processes) + %s + %s", pq, pv, pc, names, hist)
+	return fmt.Sprintf("%d parameter positions x (%d parameter values x {parameter map, Parameter.Value} x {no panic/hang, nothing nested changed, repeat} + %d self-containing values in child processes) + %s + %s + %s", pq, pv, pc, names, shapes, hist)
+}
+
+// ---- class 4: pattern shapes (totality within bounded time) ----
+//
+// Paths of 1..3 relationship steps; every step independently {fixed, *1.., *0.., *..2} x {->, <-} over two edge kinds;
+// end nodes labelled; a property predicate on the first node, on the last node, on both or on neither; returned as a
+// path or as its end nodes. The optimizer's reordering and reversal rules see every combination of bounded and
+// unbounded expansions on either side. Oracle: the translation returns (a statement or an error) within the call limit,
+// does not panic, and a second translation of the same model gives the same text.
+func vxPatternShapeClass(x *vxState) string {
+	ranges := []string{"", "*1..", "*0..", "*..2"}
+	kinds := []string{"EdgeKind1", "EdgeKind2"}
+	labels := []string{"NodeKind1", "NodeKind2"}
+	n := 0
+	for steps := 1; steps <= 3; steps++ {
+		total := 1
+		for i := 0; i < steps; i++ {
+			total *= len(ranges) * 2
+		}
+		for code := 0; code < total; code++ {
+			c := code
+			pattern := "(s:" + labels[0] + ")"
+			for i := 0; i < steps; i++ {
+				r := ranges[c%len(ranges)]
+				c /= len(ranges)
+				right := c%2 == 0
+				c /= 2
+				rel := "[:" + kinds[i%2] + r + "]"
+				node := fmt.Sprintf("(m%d:%s)", i, labels[(i+1)%2])
+				if i == steps-1 {
+					node = "(d:" + labels[(i+1)%2] + ")"
+				}
+				if right {
+					pattern += "-" + rel + "->" + node
+				} else {
+					pattern += "<-" + rel + "-" + node
+				}
+			}
+			for pred := 0; pred < 4; pred++ {
+				where := []string{"", " where s.name = 'a'", " where d.name = 'b'", " where s.name = 'a' and d.name = 'b'"}[pred]
+				for _, ret := range []string{"p", "s, d"} {
+					q := "match p = " + pattern + where + " return " + ret
+					model, err := frontend.ParseCypher(frontend.NewContext(), q)
+					if err != nil {
+						continue
+					}
+					*x.cases++
+					n++
+					sql1, _, err1, pan, hung := vxTimedTranslate(model, x.km, nil)
+					switch {
+					case hung:
+						x.deviation("shape-hang", "C05 translation did not return within %v for %q", vxCallLimit, q)
+						return fmt.Sprintf("pattern shapes (stopped at a hang after %d)", n)
+					case pan != nil:
+						x.deviation("shape-panic", "C05 panic translating %q: %v", q, pan)
+					case err1 == nil:
+						if again, err := frontend.ParseCypher(frontend.NewContext(), q); err == nil {
+							if sql2, _, err2, _, _ := vxTimedTranslate(again, x.km, nil); err2 != nil || sql2 != sql1 {
+								x.deviation("shape-nondeterministic", "C05 repeated translation differs for %q", q)
+							}
+						}
+					}
+				}
+			}
+		}
+	}
+	return fmt.Sprintf("%d path patterns of 1..3 steps x {fixed, *1.., *0.., *..2} x both directions x end-node predicates x {path, nodes}", n)
+}
+
+// ---- class 5: a returned Result is a value of its own ----
+//
+// Side-effect free also means that what one call returned is not changed by a later call: for every ordered pair (A, B)
+// of the queries of the history pool that translate, A is translated and rendered, then B is translated (and rendered),
+// then the Result of A kept from before is rendered AGAIN: the two renderings of A must be the same text, and its
+// parameter map must be unchanged. (A statement model that shares a slice with a package-level template, or with the
+// next translation's model, shows up here and nowhere else.)
+func vxResultAliasingClass(x *vxState) string {
+	type kept struct {
+		query string
+		res   translate.Result
+		text  string
+		pars  string
+	}
+	translateKeep := func(q string) (k kept, ok bool) {
+		defer func() {
+			if r := recover(); r != nil {
+				ok = false
+			}
+		}()
+		model, err := frontend.ParseCypher(frontend.NewContext(), q)
+		if err != nil {
+			return k, false
+		}
+		res, err := translate.Translate(context.Background(), model, x.km, nil, translate.DefaultGraphID)
+		if err != nil {
+			return k, false
+		}
+		text, err := translate.Translated(res)
+		if err != nil {
+			return k, false
+		}
+		return kept{q, res, text, fmt.Sprintf("%#v", res.Parameters)}, true
+	}
+	var pool []string
+	for _, hq := range vxHistQueries {
+		if hq.params == 0 {
+			if _, ok := translateKeep(hq.query); ok {
+				pool = append(pool, hq.query)
+			}
+		}
+	}
+	pairs := 0
+	for _, qa := range pool {
+		for _, qb := range pool {
+			a, ok := translateKeep(qa)
+			if !ok {
+				continue
+			}
+			if _, ok := translateKeep(qb); !ok {
+				continue
+			}
+			*x.cases++
+			pairs++
+			again, err := translate.Translated(a.res)
+			if err != nil || again != a.text || fmt.Sprintf("%#v", a.res.Parameters) != a.pars {
+				x.deviation("result-changed-by-later-call", "C05 the Result of %q renders differently after %q was translated: before %q, after %q (%v)", qa, qb, a.text, again, err)
+			}
+		}
+	}
+	return fmt.Sprintf("%d ordered pairs of translatable pool queries: the first one's Result rendered before and after the second translation", pairs)
 }
 
 // ---- class 2: determinism across history ----
@@ -972,6 +1106,9 @@ var vxHistQueries = []struct {
 }{
 	// expected to translate
 	{"match (n) return n", 0},
+	{"match (n:NodeKind1) with collect(n) as ns match (m:NodeKind2) where m in ns return m, ns", 0},
+	{"match (a:NodeKind2) with collect(a) as others match (b:NodeKind1) where b in others return b", 0},
+	{"match (n) with collect(n) as l match (m)-[r]->(o) where not m in l and o in l return m, r, o", 0},
 	{"match (n:NodeKind1) where n.name = 'a' return n.name as name order by name limit 3", 0},
 	{"match (n)-[r:EdgeKind1]->(m:NodeKind2) return n, r, m", 0},
 	{"match p = (n:NodeKind1)-[:EdgeKind1*1..3]->(m) return p", 0},
